@@ -71,6 +71,15 @@ class EngineRun:
         self.dt = dt
         self.ticks = 0
         self.tick_errors: list[str] = []
+        self.method_ends = 0
+        from openpectus.lang.exec.events import EventListener
+        run = self
+
+        class L(EventListener):
+            def on_method_end(self):
+                run.method_ends += 1
+        self._listener = L()
+        self.engine.emitter.add_listener(self._listener)
         if start:
             self.engine.execute_control_command_from_user("Start") if hasattr(
                 self.engine, "execute_control_command_from_user") else self.engine.schedule_execution("Start")
@@ -139,7 +148,8 @@ class EngineRun:
         return snap
 
     def program_nodes(self):
-        return self.engine.method_manager.program.get_all_nodes()
+        # the program the interpreter is running (after a live edit MethodManager.program is a different object)
+        return self.engine.interpreter._program.get_all_nodes()
 
     def snapshot(self) -> dict[str, Any]:
         e = self.engine
